@@ -146,6 +146,15 @@ T = {
  "C15-7": ("C15", "011957e", "limit given through MaxHistory, more than one cached head, log longer than the limit", ["C15"], "VIOLATION (native replay) by VerifC15Load"),
  "C17-6": ("C17", "011957e", "two goroutines calling PutAll on one document store, one entering while the other is between two documents of its batch", ["C17"], "VIOLATION (interpreter-schedule, P=1) by VerifC17DocsConcurrent"),
  "C20-8": ("C20", "011957e", "two concurrent Sends to the same peer with a payload over 16 KiB", ["C20"], "VIOLATION by VerifC12RawFrame / VerifC20FrameRoundTrip"),
+ # round 14 (base 011957e)
+ "C07-8": ("C07", "011957e", "a document store holding at least 16 live documents, count not a multiple of 4; Query", ["C07"], "VIOLATION (native replay) by VerifC07QueryMany"),
+ "C09-8": ("C09", "011957e", "database A closed more than once (Close + Drop) while database B of the instance stays open and is then used", ["C09"], "VIOLATION (native replay) by VerifC09CloseTwice"),
+ "C10-7": ("C10", "011957e", "a forged-author entry naming writer w1 (made by writer w2) fetched before w1's genuine entries in one batch", ["C10"], "VIOLATION (native replay) by VerifC10ForgedInBatch"),
+ "C11-7": ("C11", "011957e", "a provider that stays silent for a non-head block longer than twice the new fetch timeout, then a later request", ["C11"], "VIOLATION (interpreter, virtual time) by VerifC11LateProvider"),
+ "C14-8": ("C14", "011957e", "one *CreateDBOptions value reused for a call on one database and then for Open of a database of another type / write list", ["C14"], "VIOLATION (native replay) by VerifC14Reuse"),
+ "C16-9": ("C16", "011957e", "a batch containing a fetched log the join rejects (writer's head linking to a non-writer's entry)", ["C16", "C10"], "VIOLATION (native replay) by VerifC10Mixed (event-content oracle)"),
+ "C18-9": ("C18", "011957e", "instance Close while a Create's store constructor is running", ["C18"], "VIOLATION (native replay) by VerifC18CloseDuringOpen"),
+ "C19-7": ("C19", "011957e", "Load of a log with two cached heads that share history", ["C19"], "VIOLATION (native replay) by VerifC19History"),
 }
 for seed, (prop, base, needs, by, note) in T.items():
     d = os.path.join(V, "seeded", seed)
